@@ -245,18 +245,26 @@ def point_likelihood(cb: Callbacks, blobs: bool, counter: dict):
 def batch_likelihood(cb: Callbacks, counter: dict):
     def f(x):
         x = np.asarray(x, dtype=object)
+        if x.ndim != 2:
+            # a vectorised likelihood is documented to receive an (n, d) batch; remember the breach and answer for the single row
+            counter["bad_shape"] = counter.get("bad_shape", 0) + 1
+            counter["points"] += 1
+            return cb.ll_term(list(x.reshape(-1)))
         counter["points"] += x.shape[0]
         return sarr([float("-inf") if (cb.inf and bool(SymBool(cb.inf_term(list(x[i]))))) else cb.ll_term(list(x[i])) for i in range(x.shape[0])])
     return f
 
 
-STRATS = ["vectorized", "serial", "pool-int", "pool-object", "pool-executor"]
+STRATS = ["vectorized", "serial", "pool-int", "pool-object", "pool-executor", "vectorized+pool-object"]
 
 
 def build_sampler(ctx, cb, strat, blobs, counter, d=1, n=2, mp_record=None, sample="rwm"):
     kw = dict(n_dim=d, n_particles=n, clustering=False, sample=sample, n_steps=1, n_max_steps=1)
     if strat == "vectorized":
         return Sampler(cb.prior_transform, batch_likelihood(cb, counter), vectorize=True, **kw)
+    if strat == "vectorized+pool-object":
+        # both options given: the likelihood is still a batch function and must be called on batches
+        return Sampler(cb.prior_transform, batch_likelihood(cb, counter), vectorize=True, pool=PoolDouble(ctx), **kw)
     bd = "float64" if blobs else None
     f = point_likelihood(cb, blobs, counter)
     if strat == "serial":
@@ -297,12 +305,13 @@ def make_loglike(strat, blobs, npts, d=1):
         ctx.ok("every-pool-size-works")
         ctx.check("one-value-per-point", z3.BoolVal(len(logl) == npts))
         ctx.check("logl[i]==LL(x[i])-in-input-order", z3.And(*[eq(logl[i], cb.ll_term(x[i])) for i in range(min(npts, len(logl)))]))
-        if blobs and strat != "vectorized":
+        if blobs and not strat.startswith("vectorized"):
             okb = bl is not None and len(bl) == npts
             ctx.check("blobs-returned", z3.BoolVal(bool(okb)))
             if okb:
                 ctx.check("blob[i]==BL(x[i])-in-input-order", z3.And(*[eq(bl[i], cb.bl_term(x[i])) for i in range(npts)]))
         ctx.check("likelihood-evaluated-once-per-point", z3.BoolVal(counter["points"] == npts))
+        ctx.check("vectorised-likelihood-receives-2d-batches", z3.BoolVal(not counter.get("bad_shape")), detail={"calls_with_a_single_row": counter.get("bad_shape", 0)})
         ctx.check("dispatch-does-not-touch-the-random-stream", z3.BoolVal(not dr.used), detail=dr.used[:4])
         return None
 
@@ -351,6 +360,27 @@ def make_loglike(strat, blobs, npts, d=1):
             return {"reproduced": bool(moved), "signature": f"_log_like:{strat}:consumes-the-global-random-stream", "payload": {"pool": repr(pool)},
                     "what": f"one likelihood batch through {strat} (pool={pool!r}) advanced numpy's global random stream: runs under this evaluation mode "
                             "diverge from serial runs with the same seed"}
+        if strat == "vectorized+pool-object":
+            shapes = []
+
+            class InProc2:
+                def map(self, f, xs):
+                    return [f(x_) for x_ in xs]
+
+            def fb(xx):
+                shapes.append(np.ndim(xx))
+                xx = np.atleast_2d(xx)
+                return -np.sum(xx ** 2, axis=1)
+            smp = Sampler(lambda u: u, fb, n_dim=d, n_particles=2, clustering=False, vectorize=True, pool=InProc2())
+            try:
+                logl, _ = smp._core._log_like(np.arange(1, npts * d + 1, dtype=float).reshape(npts, d))
+                err = None
+            except Exception as e:
+                logl, err = None, e
+            bad = err is not None or any(sh != 2 for sh in shapes) or len(np.ravel(logl)) != npts
+            return {"reproduced": bool(bad), "signature": "_log_like:vectorize+pool:batch-function-called-on-single-rows", "payload": {"ndim_of_each_call": shapes, "error": repr(err)},
+                    "what": f"Sampler(vectorize=True, pool=<pool object>): the batch likelihood was called with arrays of ndim {shapes} (documented: one (n, d) batch)"
+                            + (f" and raised {type(err).__name__}: {err}" if err is not None else "")}
         if strat == "pool-int":
             size = int(m.get("pool_size", 1))
             try:
@@ -645,7 +675,7 @@ def make_resume_calls(strat):
 def obligations(tier):
     obs = []
     for strat in STRATS:
-        for blobs in ((False, True) if strat != "vectorized" else (False,)):
+        for blobs in ((False, True) if not strat.startswith("vectorized") else (False,)):
             obs.append(make_loglike(strat, blobs, 3 if tier == "quick" else 3))
     obs += [make_paired("vectorized", "serial", "warmup"), make_paired("vectorized", "serial", "warmup", inf=True), make_paired("serial", "pool-object", "mcmc"),
             make_paired("vectorized", "serial", "mcmc"), make_resume_calls("serial"), make_resume_calls("vectorized")]
